@@ -85,6 +85,8 @@ def _modfile():
         src += "\n// repo-requirements\nrequire (\n" + "\n".join(sorted(set(req))) + "\n)\n"
     with open(mod, "w") as f:
         f.write(src)
+    with open(mod + ".tree", "w") as f:
+        f.write(REPO)          # (lets _bindir sweep the modfiles of scratch trees that are gone)
     sums = open(os.path.join(REPO, "go.sum")).read()
     extra = os.path.join(HARNESS, "go.sum.extra")
     if os.path.exists(extra):
@@ -108,6 +110,16 @@ def _bindir():
             m = re.match(r"bin-(\d+)$", d)
             if m and not os.path.exists("/proc/%s" % m.group(1)):
                 shutil.rmtree(os.path.join(BUILD, d), ignore_errors=True)
+        for d in os.listdir(BUILD):
+            if d.startswith("go__tmp_") and d.endswith(".mod"):
+                tf = os.path.join(BUILD, d + ".tree")
+                tree = open(tf).read().strip() if os.path.exists(tf) else None
+                if tree is None or not os.path.isdir(tree):
+                    for x in (d, d + ".tree", d[:-4] + ".sum"):
+                        try:
+                            os.unlink(os.path.join(BUILD, x))
+                        except OSError:
+                            pass
         _BINDIR = os.path.join(BUILD, "bin-%d" % os.getpid())
         os.makedirs(_BINDIR, exist_ok=True)
         import atexit
